@@ -779,3 +779,41 @@ func inSetTerm(b value, set string) string {
 	}
 	return tOr(alts...)
 }
+
+func init() {
+	// sort.Slice / sort.SliceStable go through reflectlite (Swapper); here: a stable insertion sort that
+	// calls the interpreted less function.  It can differ from Go's pdqsort only in the order of
+	// elements that compare equal under less.
+	sortSlice := func(st *pstate, fr *frame, fn *ssa.Function, args []value) value {
+		var s []value
+		switch x := args[0].(type) {
+		case iface:
+			if x.v == nil {
+				return nil
+			}
+			sl, ok := x.v.([]value)
+			if !ok {
+				panic(unsupported(fmt.Sprintf("sort.Slice on %T", x.v)))
+			}
+			s = sl
+		default:
+			panic(unsupported(fmt.Sprintf("sort.Slice on %T", args[0])))
+		}
+		less := func(a, b int) bool {
+			r := call(fr.i, fr, token.NoPos, args[1], []value{a, b})
+			bv, ok := r.(bool)
+			if !ok {
+				panic(unsupported("sort.Slice with a symbolic comparison"))
+			}
+			return bv
+		}
+		for i := 1; i < len(s); i++ {
+			for j := i; j > 0 && less(j, j-1); j-- {
+				s[j], s[j-1] = s[j-1], s[j]
+			}
+		}
+		return nil
+	}
+	intrinsics["sort.Slice"] = sortSlice
+	intrinsics["sort.SliceStable"] = sortSlice
+}
